@@ -49,9 +49,7 @@ def run (op : String) (a : Json) : Option (Except String Json) :=
       -- extension: inherited fields, then the own fields, each class with its own occurrence products
       let pa ← dParticle (fld a "base")
       let pb ← dParticle (fld a "ext")
-      pure <| match occurs (sites pa), occurs (sites pb) with
-        | some sa, some sb => ok (jList jSite (sa ++ sb))
-        | _, _ => err "LEAK:AssertionError"
+      pure <| ok (jList jSite (occurs (sites pa) ++ occurs (sites pb)))
   | "gen.subst_sites" => some do
       let pairs ← (← asArr (fld a "subs")).mapM fun j => match j with
         | .arr #[m, h] => do pure (← asStr m, ← asStr h)
@@ -64,9 +62,8 @@ def run (op : String) (a : Json) : Option (Except String Json) :=
         | _ => .error "bad substitution pair"
       let refs ← (← asArr (fld a "refs")).mapM asStr
       -- CalculateAttributePaths, UpdateAttributesEffectiveChoice, AddAttributeSubstitutions, MergeAttributes
-      pure <| match effectiveChoice (calculatePaths (sites (← dParticle (fld a "particle")))) with
-        | some ss => ok (jList jSite (mergeDuplicates (substituteAll pairs refs ss)))
-        | none => err "LEAK:AssertionError"
+      let ss := effectiveChoice (calculatePaths (sites (← dParticle (fld a "particle"))))
+      pure <| ok (jList jSite (mergeDuplicates (substituteAll pairs refs ss)))
   | _ => none
 
 end OpsGenDerive
